@@ -305,6 +305,38 @@ func (e *Engine) chooseAmong(conds []*Term, what string) int {
 	return feas[0]
 }
 
+// chooseFresh forks over conditions on a fresh variable (all feasible, no queries).
+func (e *Engine) chooseFresh(conds []*Term) int {
+	if e.spec > 0 {
+		panic(specAbort{})
+	}
+	if !e.live() {
+		ent := &e.log[e.pos]
+		e.pos++
+		if ent.pending {
+			ent.pending = false
+			ent.level = e.solver.Level()
+			e.solver.Push()
+			ent.pushed = true
+			e.pcAssert(conds[ent.choice])
+		}
+		return ent.choice
+	}
+	ent := logEntry{choice: 0, level: e.solver.Level()}
+	for i := 1; i < len(conds); i++ {
+		ent.rest = append(ent.rest, i)
+	}
+	if len(conds) > 1 {
+		e.Forks++
+		e.solver.Push()
+		ent.pushed = true
+	}
+	e.log = append(e.log, ent)
+	e.pos++
+	e.pcAssert(conds[0])
+	return 0
+}
+
 // logged runs f once per path position and records its (deterministic-on-replay) answer.
 func (e *Engine) logged(f func() int) int {
 	if e.spec > 0 {
